@@ -22,7 +22,7 @@ def headName (w : Bytes) : Bytes := if w[1]? == some 47 then w.drop 2 else w.dro
 def headKey (w : Bytes) : Bool × Nat := (headKind w, NameHash.ofBytes (headName w))
 
 /-- one byte of the tag head on the lexer's side: the state after an arm that stays in the head -/
-def absStep (t : Table) (s : StateId) (b : UInt8) : Option StateId :=
+def headStep (t : Table) (s : StateId) (b : UInt8) : Option StateId :=
   match selArm t s b with
   | some ⟨_, .seq q⟩ =>
     if tsCalls q.calls == .keep then
@@ -32,15 +32,15 @@ def absStep (t : Table) (s : StateId) (b : UInt8) : Option StateId :=
 
 def absHead (t : Table) : StateId → Bytes → Option StateId
   | s, [] => some s
-  | s, b :: bs => (absStep t s b).bind fun s' => absHead t s' bs
+  | s, b :: bs => (headStep t s b).bind fun s' => absHead t s' bs
 
 theorem absHead_snoc (t : Table) (s : StateId) (w : Bytes) (b : UInt8) :
-    absHead t s (w ++ [b]) = (absHead t s w).bind fun s' => absStep t s' b := by
+    absHead t s (w ++ [b]) = (absHead t s w).bind fun s' => headStep t s' b := by
   induction w generalizing s with
   | nil => simp [absHead]
   | cons x xs ih =>
     simp only [List.cons_append, absHead]
-    cases absStep t s x with
+    cases headStep t s x with
     | none => rfl
     | some s' => simp [ih]
 
@@ -330,7 +330,7 @@ def keepRegs (acts : List ActName) (pos : Nat) (b : UInt8) (s : ScanRegs) : Scan
     { s with tagNameStart := pos, tagNameHash := NameHash.update NameHash.new b, isInEndTag := true }
   else s
 
-theorem runCalls_keep (ph : Phase) (cs : List Call) (hk : keepCallsOk ph cs = true) (c : Common) (s : ScanRegs)
+theorem runCalls_keepS (ph : Phase) (cs : List Call) (hk : keepCallsOk ph cs = true) (c : Common) (s : ScanRegs)
     (x : Ctx κ) (b : UInt8) (hb : inp[c.pos]? = some b) :
     runCalls env inp cs (⟨c, .scanner s, x⟩ : M κ) = (⟨c, .scanner (keepRegs (actsOf cs) c.pos b s), x⟩, none) := by
   simp only [keepCallsOk, Bool.and_eq_true] at hk
@@ -567,23 +567,23 @@ theorem keep_sem {ph : Phase} {c : Common} {s : ScanRegs} {x : Ctx κ} {b : UInt
     HSem env.tbl L S inp (runSeq env inp q (⟨c, .scanner s, x⟩ : M κ)).1 := by
   simp only [seqPair, hk, Bool.and_eq_true, Bool.not_false, true_and, beq_iff_eq] at hpair
   obtain ⟨⟨hcalls, hkc⟩, htrans⟩ := hpair
-  have hrc := runCalls_keep (env := env) (inp := inp) ph q.calls hkc c s x b hb
+  have hrc := runCalls_keepS (env := env) (inp := inp) ph q.calls hkc c s x b hb
   have hp1 : c.pos + 1 = c.nextPos := by simp [Common.pos]; omega
   -- the lexer-side step
   have habs : ∀ tgt', (q'.trans = none → tgt' = S.at c.state) → (∀ j', q'.trans = some (.goto j') → tgt' = j') →
-      (q'.trans = none ∨ ∃ j', q'.trans = some (.goto j')) → absStep env.tbl (S.at c.state) b = some tgt' := by
+      (q'.trans = none ∨ ∃ j', q'.trans = some (.goto j')) → headStep env.tbl (S.at c.state) b = some tgt' := by
     intro tgt' h1 h2 h3
     obtain ⟨pat', body'⟩ := A'
     simp only at hbody
     subst hbody
-    simp only [absStep, hsel, hcalls, hk, beq_self_eq_true, if_true]
+    simp only [headStep, hsel, hcalls, hk, beq_self_eq_true, if_true]
     rcases h3 with h3 | ⟨j', h3⟩
     · rw [h3]; simp [h1 h3]
     · rw [h3]; simp [h2 j' h3]
   -- the new witness
   have hwit : ∀ (st' : StateId) (m' : M κ), m'.c.state = st' → m'.c.nextPos = c.nextPos → m'.c.lastTextType = c.lastTextType →
       m'.r = .scanner (keepRegs (actsOf q.calls) c.pos b s) →
-      absStep env.tbl (S.at c.state) b = some (S.at st') →
+      headStep env.tbl (S.at c.state) b = some (S.at st') →
       (∀ ph', L.at st' = some ph' → stepOk ph b ph' = true ∧
         ((ph' == .name) = (hasAct .createStartTag q.calls || hasAct .createEndTag q.calls || ph == .name))) →
       HSem env.tbl L S inp m' := by
